@@ -69,6 +69,14 @@ CLAIMED = {
             'bounded, solver-complete inside the bound: for 3..4 objects, every selection size, every distance table (arbitrary non-negative): requested count, distinct, in range; MaxDis_Fast: every further element maximises the minimum tabled distance; k-means step: labels in range and nearest, centroids = member means for every label vector',
             'distances are an over-approximation (havoc), so metric-specific float behaviour and "first = farthest from centroid" are outside; MaxDis, k-means++ and convergence not decided (measured out of reach or limit statements)',
             'DESIGN.md 5/C17'),
+    'C09': ('CBMC symbolic execution of one pass of the real CPCA loop from an arbitrary super score (guarded hook) and of CPCAScorePredictor on a symbolic model -> SMT VC over the reals -> z3 nlsat',
+            'bounded, solver-complete inside the bound: 2 blocks (widths 1..2), 2..3 objects: unit super weights, super score = block scores x super weights, block loadings = E_b\'t/t\'t, scaling factor = sqrt(width), total variance bookkeeping; the predictor performs the training step for stored averages/scalings of either sign',
+            'converged equality with the PCA of the block-scaled concatenation is a limit statement, not decided; block explained variances rest on the Pythagoras lemma; exact reals',
+            'DESIGN.md 5/C09'),
+    'C04': ('CBMC symbolic execution of the real PLSBetasCoeff / PLSScorePredictor / PLSYPredictor on a symbolic model and of LVCalc from the invariant loop-head state -> SMT VC over the reals -> z3 nlsat',
+            'bounded, solver-complete inside the bound: for every x the coefficient form predicts what the score-based predictor predicts (1..2 latent variables, 2..3 predictors); one latent variable lowers the residual sum of squares by exactly b^2 t\'t (never increases it); inner relation b = u\'t/t\'t',
+            'the OLS limit at full rank and equivariance (two-run query) are NOT decided in quick; structural facts p_k.w_k=1, p_i.w_j=0 (i>j) assumed on the symbolic model (C03); exact reals',
+            'DESIGN.md 5/C04'),
 }
 NA = {
     'C16': 'behaviour lives inside SQLite and libc decimal formatting (FFI + file I/O); nothing of it is source in /repo that could be executed symbolically - an encoding would verify a hand-written SQL fake, not the code',
